@@ -93,6 +93,106 @@ impl MkLabel for Coarse {
     }
 }
 
+/// A label type whose `Eq` and `Hash` look at `key` only (legal for `LabelType`: think of a case-insensitive name
+/// or a name carrying the line it was declared on): equal labels can be told apart through `payload` / Display,
+/// so "inserting an existing argument changes nothing" becomes observable on the stored label itself.
+#[derive(Clone, Debug)]
+pub struct Keyed {
+    pub key: u8,
+    pub payload: u8,
+}
+impl PartialEq for Keyed {
+    fn eq(&self, o: &Keyed) -> bool {
+        self.key == o.key
+    }
+}
+impl Eq for Keyed {}
+impl std::hash::Hash for Keyed {
+    fn hash<H: std::hash::Hasher>(&self, state: &mut H) {
+        state.write_u8(self.key);
+    }
+}
+impl std::fmt::Display for Keyed {
+    fn fmt(&self, f: &mut std::fmt::Formatter<'_>) -> std::fmt::Result {
+        write!(f, "{}#{}", self.key, self.payload)
+    }
+}
+
+/// The history of a case replayed on labels of type `Keyed` (label l -> key l % 5, payload l / 5) against a
+/// map key -> first payload inserted since the key was last absent, which is what a plain `HashSet` keeps.
+pub fn run_keyed(case: &StoreCase, rec: &mut Rec) -> CheckResult {
+    let mk = |l: u8| Keyed { key: l % 5, payload: l / 5 };
+    let labels: Vec<Keyed> = case.initial.iter().map(|l| mk(*l)).collect();
+    let mut model: std::collections::BTreeMap<u8, u8> = Default::default();
+    for l in &labels {
+        model.entry(l.key).or_insert(l.payload);
+    }
+    let mut redeclared = labels.len() != model.len();
+    let observe = |af: &AAFramework<Keyed>, model: &std::collections::BTreeMap<u8, u8>, at: &str| -> CheckResult {
+        if af.n_arguments() != model.len() {
+            return Err(Failure::new("C12/keyed-labels/argument-count-differs-from-set-model", format!("{} arguments, model {:?} {}", af.n_arguments(), model, at)));
+        }
+        for (k, pl) in model {
+            let got = af.argument_set().get_argument(&Keyed { key: *k, payload: 255 }).map(|a| (a.label().key, a.label().payload));
+            if got.as_ref().ok() != Some(&(*k, *pl)) {
+                return Err(Failure::new(
+                    "C12/keyed-labels/stored-label-replaced-by-an-equal-one",
+                    format!("key {} was first inserted with payload {}, the framework now exposes {:?} {}", k, pl, got.ok(), at),
+                ));
+            }
+        }
+        let mut seen: Vec<(u8, u8)> = af.argument_set().iter().map(|a| (a.label().key, a.label().payload)).collect();
+        seen.sort();
+        let want: Vec<(u8, u8)> = model.iter().map(|(k, p)| (*k, *p)).collect();
+        if seen != want {
+            return Err(Failure::new("C12/keyed-labels/iteration-differs-from-set-model", format!("iteration {:?}, model {:?} {}", seen, want, at)));
+        }
+        Ok(())
+    };
+    let r = guard(|| -> CheckResult {
+        let mut af = AAFramework::new_with_argument_set(ArgumentSet::new_with_labels(&labels));
+        observe(&af, &model, "after new_with_labels")?;
+        for (k, op) in case.ops.iter().enumerate() {
+            match op {
+                StoreOp::NewArg(l) => {
+                    let lab = mk(*l);
+                    if model.contains_key(&lab.key) {
+                        redeclared = true;
+                    }
+                    model.entry(lab.key).or_insert(lab.payload);
+                    af.new_argument(lab);
+                }
+                StoreOp::RemArg(l) => {
+                    let lab = mk(*l);
+                    let was = model.remove(&lab.key).is_some();
+                    if af.remove_argument(&lab).is_ok() != was {
+                        return Err(Failure::new("C12/keyed-labels/remove_argument-outcome-differs-from-set-model", format!("op #{} {:?}", k, op)));
+                    }
+                }
+                StoreOp::NewAtt(a, b) => {
+                    let ok = af.new_attack(&mk(*a), &mk(*b)).is_ok();
+                    if ok != (model.contains_key(&(a % 5)) && model.contains_key(&(b % 5))) {
+                        return Err(Failure::new("C12/keyed-labels/new_attack-outcome-differs-from-set-model", format!("op #{} {:?}", k, op)));
+                    }
+                }
+                StoreOp::RemAtt(a, b) => {
+                    let _ = af.remove_attack(&mk(*a), &mk(*b));
+                }
+            }
+            observe(&af, &model, &format!("after op #{} {:?}", k, op))?;
+        }
+        Ok(())
+    });
+    rec.eval();
+    if redeclared {
+        rec.class("keyed-labels-with-a-redeclared-equal-label");
+    }
+    match r {
+        Ok(r) => r,
+        Err(p) => Err(Failure::new("C12/keyed-labels/panic", p)),
+    }
+}
+
 /// Compares everything observable with the model.
 pub fn compare<T: MkLabel>(af: &AAFramework<T>, m: &SetModel, universe: u8, pid: &str) -> CheckResult {
     match guard(|| compare_inner(af, m, universe, pid)) {
@@ -364,7 +464,7 @@ impl Prop for Store {
         "C12"
     }
     fn rule(&self) -> String {
-        "Histories of 0-200 (quick) / 0-600 (thorough) operations new_argument / remove_argument / new_attack / remove_attack over a universe of 4-8 labels (80%) or 20-120 labels with a bias towards a few hub labels (20%, histories twice as long, so that adjacency lists of several dozen entries and ids in the hundreds arise) (labels of type usize, String, or a type whose Hash is coarser than its Eq), operands arbitrary (known or unknown, self-attacks, re-insertion, repeated removal), starting from new_with_labels with possibly repeated labels. After every step the whole observable state (counts, argument iteration, get_argument / get_argument_by_id / has_argument_with_id for every id ever issued, iter_attacks as a multiset, iter_attacks_from/to of every live argument) is compared with a set model, the returned Result with the model's precondition, ids with uniqueness / stability / no reuse. Non-trivial: the history removes an argument that has a self-attack or both incoming and outgoing attacks and goes on for >=3 more operations; distinct = history.".into()
+        "Histories of 0-200 (quick) / 0-600 (thorough) operations new_argument / remove_argument / new_attack / remove_attack over a universe of 4-8 labels (80%) or 20-120 labels with a bias towards a few hub labels (20%, histories twice as long, so that adjacency lists of several dozen entries and ids in the hundreds arise) (labels of type usize, String, or a type whose Hash is coarser than its Eq), operands arbitrary (known or unknown, self-attacks, re-insertion, repeated removal), starting from new_with_labels with possibly repeated labels. After every step the whole observable state (counts, argument iteration, get_argument / get_argument_by_id / has_argument_with_id for every id ever issued, iter_attacks as a multiset, iter_attacks_from/to of every live argument) is compared with a set model, the returned Result with the model's precondition, ids with uniqueness / stability / no reuse. Non-trivial: the history removes an argument that has a self-attack or both incoming and outgoing attacks and goes on for >=3 more operations; distinct = history. Every history without a hub or churn prefix is also replayed on a label type whose Eq and Hash ignore part of the value (key = l % 5, payload = l / 5): after every step the framework must expose, for each live key, the payload that was inserted FIRST since the key was last absent (what a plain HashSet keeps), with the same count and iteration.".into()
     }
     fn assumptions(&self) -> Vec<String> {
         vec!["the set model (BTreeMap/BTreeSet)".into(), "ids need not equal the insertion rank (mechanism, not checked)".into()]
@@ -453,6 +553,11 @@ impl Prop for Store {
         } else {
             "usize-labels"
         });
+        // every history is also replayed on labels whose Eq ignores part of the value (unless its generated part is
+        // preceded by a hub or churn prefix, which the keyed replay does not build)
+        if case.hub_prefix == 0 && case.churn == 0 {
+            run_keyed(case, rec)?;
+        }
         if case.coarse {
             self.run_generic::<Coarse>(case, rec)
         } else if case.string_labels {
